@@ -284,6 +284,8 @@ union Pet = Dog | Cat
 enum Kind { A B }
 type Query { me: Person pet: Pet named: Named n: Int rock: Rock }
 """
+# a second interface and a second union whose possible types are disjoint from Named's / Pet's
+C06_SCHEMA2 = C06_SCHEMA + " interface Tagged { tag: String } type Sticker implements Tagged { tag: String } union Stuff = Rock | Sticker "
 C06_SUB_SCHEMA = C06_SCHEMA.replace("schema { query: Query }", "schema { query: Query subscription: Sub }") + " type Sub { a: Int b: Int }"
 
 
@@ -315,6 +317,11 @@ def c06_cases(tier):
         ("k4b spread of a fragment on a non-member of the union", C06_SCHEMA, "fragment F on Rock { weight } query Q { pet { __typename ...F } }"),
         ("k4b-object inline fragment on an unrelated object inside an object", C06_SCHEMA, "query Q { me { name ... on Rock { weight } } }"),
         ("k4b-object spread of a fragment on an unrelated object inside an object", C06_SCHEMA, "fragment F on Rock { weight } query Q { me { name ...F } }"),
+        ("k4b inline fragment on an interface without a common implementor, inside an interface", C06_SCHEMA2, "query Q { named { __typename ... on Tagged { tag } } }"),
+        ("k4b spread of a fragment on an interface without a common implementor, inside an interface", C06_SCHEMA2, "fragment T on Tagged { tag } query Q { named { __typename ...T } }"),
+        ("k4b inline fragment on a disjoint interface inside a union", C06_SCHEMA2, "query Q { pet { __typename ... on Tagged { tag } } }"),
+        ("k4b inline fragment on a disjoint union inside an interface", C06_SCHEMA2, "query Q { named { __typename ... on Stuff { __typename } } }"),
+        ("k4b inline fragment on a disjoint union inside a union", C06_SCHEMA2, "query Q { pet { __typename ... on Stuff { __typename } } }"),
         ("k4b impossible inline fragment inside a named fragment", C06_SCHEMA, "fragment F on Named { __typename name ... on Rock { weight } } query Q { named { __typename ...F } }"),
         ("k4b impossible inline fragment nested in an inline fragment", C06_SCHEMA, "query Q { pet { __typename ... on Dog { owner { pet { __typename ... on Rock { weight } } } } } }"),
         ("k4b impossible spread inside a named fragment", C06_SCHEMA, "fragment R on Rock { weight } fragment F on Person { pet { __typename ...R } } query Q { me { ...F } }"),
@@ -636,8 +643,10 @@ def _by_value_cycle(t):
 
 def c02_cases(tier):
     """every type a generated module mentions is defined in it exactly once (or is a std / prelude name)"""
-    schema = ("scalar Date scalar Money enum Kind { A B } enum Unused { X } interface Named { name: String } "
-              "type Dog implements Named { name: String born: Date kind: Kind owner: Person best: Named } type Cat implements Named { name: String price: Money } "
+    # JSON / date_time / snake_kind / range_in: names whose spelling changes under normalization = rust (every mention and the
+    # definition or alias must change together)
+    schema = ("scalar Date scalar Money scalar JSON scalar date_time enum Kind { A B } enum snake_kind { a_b } enum Unused { X } interface Named { name: String } "
+              "type Dog implements Named { name: String born: Date kind: Kind owner: Person best: Named meta: JSON seen: date_time sk: snake_kind } type Cat implements Named { name: String price: Money } "
               "type Person { name: String since: Date pets: [Pet!] bestie: Person } union Pet = Dog | Cat "
               "input Range { from: Date to: Date inner: Inner } input Inner { kind: Kind amount: Money again: Range } "
               "type Query { me(at: Date, range: Range, kind: Kind, n: Int, id: ID, ids: [ID!]): Person pet: Pet named: Named }")
@@ -646,6 +655,7 @@ def c02_cases(tier):
         "query Q($id: ID, $ids: [ID!]) { me(id: $id, ids: $ids) { name } }",
         "query Q($range: Range) { me(range: $range) { name since } }",
         "query Q($kind: Kind, $n: Int) { me(kind: $kind, n: $n) { name } }",
+        "query Q { pet { __typename ... on Dog { meta seen sk } } }",
         "fragment P on Person { since pets { __typename ... on Dog { born kind } ... on Cat { price } } } query Q { me { ...P } }",
         "fragment D on Dog { born owner { ...P } } fragment P on Person { name pets { __typename ...D } } query Q { pet { __typename ...D } }",
         "query Q { named { __typename name ... on Dog { kind } } pet { __typename ... on Cat { price } } }",
